@@ -3,6 +3,7 @@ package main
 import (
 	"fmt"
 	"go/ast"
+	"regexp"
 	"strings"
 )
 
@@ -18,6 +19,10 @@ import (
 //   - genesis.go: ExportGenesis / InitGenesis carry the tax and limit records; whether the usage tally
 //     is carried is reported as a boolean the model uses.
 //   - batch.go: OutgoingTxBatchSize.
+var c15lineComment = regexp.MustCompile(`(?m)//.*$`)
+
+func c15stripComments(s string) string { return c15lineComment.ReplaceAllString(s, "") }
+
 func extractC15Gov(c *Ctx) error {
 	gf, err := c.Parse("x/skyway/keeper/governance_proposals.go")
 	if err != nil {
@@ -122,13 +127,29 @@ func extractC15Gov(c *Ctx) error {
 		}
 		return c15norm(c.Src(fd.Body)), nil
 	}
+	// the getters and setters are read whole: every call goes to the store (no cache, no fallback key)
+	for fn, whole := range map[string]string{
+		"SetBridgeTax": `{iftax.Token==""{returnerrors.New("emptytaxtoken")}taxRate,ok:=new(big.Rat).SetString(tax.Rate)` +
+			`if!ok||taxRate.Sign()<0{returnfmt.Errorf("invalidtaxratevalue:%s",tax.Rate)}` +
+			`st:=k.GetStore(ctx,types.BridgeTaxPrefix)returnkeeperutil.Save(st,k.cdc,[]byte(tax.Token),tax)}`,
+		"BridgeTax": `{st:=k.GetStore(ctx,types.BridgeTaxPrefix)returnkeeperutil.Load[*types.BridgeTax](st,k.cdc,[]byte(token))}`,
+		"SetBridgeTransferLimit": `{iflimit.Token==""{returnerrors.New("emptytransferlimittoken")}` +
+			`st:=k.GetStore(ctx,types.BridgeTransferLimitPrefix)returnkeeperutil.Save(st,k.cdc,[]byte(limit.Token),limit)}`,
+		"BridgeTransferLimit": `{st:=k.GetStore(ctx,types.BridgeTransferLimitPrefix)returnkeeperutil.Load[*types.BridgeTransferLimit](st,k.cdc,[]byte(token))}`,
+		"BridgeTransferUsage": `{st:=k.GetStore(ctx,types.BridgeTransferUsagePrefix)returnkeeperutil.Load[*types.BridgeTransferUsage](st,k.cdc,[]byte(token))}`,
+	} {
+		fd := FindFunc(kf, "Keeper", fn)
+		if fd == nil {
+			return fmt.Errorf("%s not found", fn)
+		}
+		// comments are not part of the printed AST nodes of statements; strip any that the printer kept
+		got := c15norm(c15stripComments(c.Src(fd.Body)))
+		if got != whole {
+			return fmt.Errorf("%s: body not understood (expected a plain store access keyed by the token as given):\n got  %s\n want %s", fn, got, whole)
+		}
+	}
 	type keyFact struct{ fn, must string }
 	for _, kfact := range []keyFact{
-		{"SetBridgeTax", "st:=k.GetStore(ctx,types.BridgeTaxPrefix)returnkeeperutil.Save(st,k.cdc,[]byte(tax.Token),tax)"},
-		{"BridgeTax", "st:=k.GetStore(ctx,types.BridgeTaxPrefix)returnkeeperutil.Load[*types.BridgeTax](st,k.cdc,[]byte(token))"},
-		{"SetBridgeTransferLimit", "st:=k.GetStore(ctx,types.BridgeTransferLimitPrefix)returnkeeperutil.Save(st,k.cdc,[]byte(limit.Token),limit)"},
-		{"BridgeTransferLimit", "st:=k.GetStore(ctx,types.BridgeTransferLimitPrefix)returnkeeperutil.Load[*types.BridgeTransferLimit](st,k.cdc,[]byte(token))"},
-		{"BridgeTransferUsage", "st:=k.GetStore(ctx,types.BridgeTransferUsagePrefix)returnkeeperutil.Load[*types.BridgeTransferUsage](st,k.cdc,[]byte(token))"},
 		{"bridgeTaxAmount", "bridgeTax,err:=k.BridgeTax(ctx,coin.Denom)"},
 		{"UpdateBridgeTransferUsageWithLimit", "limits,err:=k.BridgeTransferLimit(ctx,coin.Denom)"},
 		{"UpdateBridgeTransferUsageWithLimit", "usage,err:=k.BridgeTransferUsage(ctx,coin.Denom)"},
